@@ -184,7 +184,7 @@ def gen_obs(rng, n, paulis="XYZH"):
 
 def gen_valid(rng, i):
     n = rng.randint(1, 4)
-    c = {"n": n, "dev": ["numpy", "jax", "mixed", "numpy", "mixed"][i % 5], "seed": rng.randrange(10 ** 6),
+    c = {"n": n, "dev": ["numpy", "jax", "mixed", "numpy", "mixed", "numpy", "mixed"][i % 7], "seed": rng.randrange(10 ** 6),
          "gates": gen_circuit(rng, n, clifford=rng.random() < 0.4)}
     c["sv"] = [rng.choice([1, 7, 50, 200])] if rng.random() < 0.4 else [rng.choice([1, 5, 10, 33]) for _ in range(rng.randint(2, 4))]
     mps = []
@@ -474,7 +474,7 @@ def run(ctx):
     rng = ctx.rng
     quick = ctx.tier == "quick"
     n_det = 700 if quick else 6000
-    n_jax = 12 if quick else 80
+    n_jax = 8 if quick else 80
     n_valid = 40 if quick else 400
     n_stat = 12 if quick else 40
     nshots = 20000 if quick else 1000000
